@@ -16,4 +16,9 @@ PROPS = {
         rule="pattern lists of length 1-5 over hosts sharing byte suffixes that are not label boundaries (a.com/ba.com/xa.com/example.com/xample.com...), IPv4/IPv6 literals, trailing dots, 253-byte hosts, several schemes and ports, '*.' and ':*' forms, duplicates and mutually subsuming pairs; every permutation of lists up to length 3 (quick) / 5 (thorough); per list all mechanically derived near-miss origins of every pattern (left extension without dot, truncations, deeper/shallower subdomain, scheme prefix/suffix, other/absent/default/65535 port, brackets, upper case); non-trivial = at least one pattern was accepted and inserted",
         assumptions=[],
     ),
+    "C03": dict(claimed=False, theorems=[], rule="", assumptions=[]),
+    "C11": dict(claimed=False, theorems=[], rule="", assumptions=[]),
+    "C16": dict(claimed=False, theorems=[], rule="", assumptions=[]),
+    "C04": dict(claimed=False, theorems=[], rule="", assumptions=[]),
+    "C05": dict(claimed=False, theorems=[], rule="", assumptions=[]),
 }
